@@ -1,7 +1,7 @@
 (* C19 — contradictory or incomplete specifications are rejected at every entry point. *)
 From Coq Require Import Reals Lra List.
 From PV Require Import Num PyBase Model.Component Model.Mixture Model.Permeance Model.Solver Model.Curve
-  Model.Membrane Model.Process Lemmas.Composition Lemmas.Membrane Lemmas.Curve.
+  Model.Membrane Model.Process Model.NonIdealCurve Lemmas.Composition Lemmas.Membrane Lemmas.Curve Lemmas.NonIdealCurve.
 Import ListNotations.
 Local Open Scope R_scope.
 
@@ -31,6 +31,11 @@ Theorem C19_process kind (m : Mixture ROps) (cd : Conditions ROps) (dt prec : R)
   (forall a, sa_Tp a = cd_Tp cd -> sa_pp a = cd_pp cd -> exists e, slv a = Err e) ->
   exists e, run_from ROps kind m cd dt prec ct slv perm f1 f2 FR1 FR2 (S n) k st = Err e.
 Proof. exact (process_rejects kind m cd dt prec ct slv perm f1 f2 FR1 FR2 n k st). Qed.
+
+Theorem C19_non_ideal_curve PP (m : Mixture ROps) slv ea single raw1 raw2 T x0 delta n Tp pp ip prec ct :
+  (forall a, sa_Tp a = Tp -> sa_pp a = pp -> exists e, slv a = Err e) ->
+  exists e, non_ideal_curve ROps PP m slv ea single raw1 raw2 T x0 delta n Tp pp ip prec ct = Err e.
+Proof. exact (non_ideal_curve_rejects PP m slv ea single raw1 raw2 T x0 delta n Tp pp ip prec ct). Qed.
 
 Theorem C19_pure_component_flux exps T (c : Component ROps) tp p :
   pure_component_flux ROps exps T c (Some tp) (Some p) = Err ValueError.
